@@ -51,9 +51,13 @@ T_Reset == /\ IsEvent("reset")
            /\ G("reset.quiet", cur = None)
            /\ Reset
 
+\* A task the specification does not know: a future the library spawned besides actor loops and timers (the unchanged
+\* library has none).  It is scheduled like any other task and is opaque: nothing is claimed about it, what it does to
+\* the actors is judged by their own events.
+Known(t) == t \in Actor \cup Client \cup DOMAIN tmr
 T_Pick == /\ IsEvent("pick")
           /\ G("pick.free", cur = None)
-          /\ G("pick.task", E.task \in Actor \cup Client \cup DOMAIN tmr)
+          /\ G("pick.task", Known(E.task) \/ ("opaque" \in DOMAIN E /\ E.opaque))
           /\ Pick(E.task)
 
 T_Block == /\ IsEvent("block")
@@ -65,7 +69,7 @@ T_Block == /\ IsEvent("block")
               \* (quiescence is strict again: there no waiter may be left behind)
               \* (`woken`: the task returned Pending with its own wake-up already pending - a cooperative yield inside the
               \* library; it stays runnable, so nothing is claimed about what it waits for)
-              /\ IF yl \/ ("woken" \in DOMAIN E /\ E.woken) \/ ~CanStep(t) \/ (t \in Tasker /\ cli[t].stage = "reglock") THEN TRUE
+              /\ IF ~Known(t) \/ yl \/ ("woken" \in DOMAIN E /\ E.woken) \/ ~CanStep(t) \/ (t \in Tasker /\ cli[t].stage = "reglock") THEN TRUE
                  ELSE IF t \in Client THEN G("blk." \o cli[t].stage, FALSE)
                  ELSE IF t \in DOMAIN tmr THEN G("blk.timer", FALSE)
                  ELSE IF act[t].pc = "idle" THEN G(IdleReason("blk.loop.", t), FALSE)
@@ -79,7 +83,8 @@ Leaving(t) == \/ act[t].pc \in {"stopping", "finishing"}
               \/ act[t].pc = "idle" /\ act[t].mq # <<>> /\ Head(act[t].mq).k = "stop"
 T_Exit == /\ IsEvent("exit")
           /\ LET t == E.task IN
-             /\ IF t \in Client
+             /\ IF ~Known(t) THEN G("exit.cur", cur = t)
+                ELSE IF t \in Client
                 THEN /\ G("exit.cur", cur = t /\ ~yl)
                      /\ G("exit.client." \o cli[t].op, cli[t].stage = "idle" /\ E.how = "ready")
                 ELSE IF t \in DOMAIN tmr
@@ -135,7 +140,7 @@ T_OpBegin == /\ IsEvent("op_begin")
 \* (a liveness query about an actor that FAILED implicates failure visibility, C06, besides C14)
 ResGuard(op, L) == IF L.a \in Actor /\ act[L.a].pc = "failed"
                    THEN (IF op \in {"stopped", "running", "try_from_registry", "already_running"} THEN "oe.res." \o op \o ".failed"
-                         ELSE "oe.res.failed." \o act[L.a].why)
+                         ELSE "oe.res.failed." \o act[L.a].why \o (IF op \in {"await", "await_ref", "halt", "try_halt"} THEN ".await" ELSE ""))
                    ELSE "oe.res." \o op
 LastMatchesCtx(op, L, sfx) ==
                       /\ G(IF sfx # "" THEN "oe.res." \o op \o sfx ELSE ResGuard(op, L), L.res = E.res)
@@ -325,7 +330,12 @@ T_Silent == /\ cur # None /\ ~yl /\ l' = l
                \/ cur \in Client /\ cli[cur].stage = "reglock" /\ IsBrokerType(cli[cur].arg.ty) /\ RunCont(cur)   \* a Broker is spawned without a trace
                \/ cur \in DOMAIN tmr /\ (TimerStart(cur) \/ TimerFlushed(cur) \/ TimerEnd(cur)) /\ UNCHANGED <<cur, yl>>
 
-TNext == \/ T_Reset \/ T_Pick \/ T_Block \/ T_Exit \/ T_Yield \/ T_Advance \/ T_Cancel
+\* After a yield the task normally suspends (`block`).  A library may also poll the yielding future again within the same
+\* poll of the task - a select loop whose other branch was ready - and then the task simply goes on: its next event shows it.
+T_Resume == /\ cur # None /\ yl /\ l <= Len(Rec) /\ E.task = cur /\ E.ev # "block"
+            /\ l' = l /\ yl' = FALSE /\ UNCHANGED <<sys, cur>>
+
+TNext == \/ T_Resume \/ T_Reset \/ T_Pick \/ T_Block \/ T_Exit \/ T_Yield \/ T_Advance \/ T_Cancel
          \/ T_OpBegin \/ T_OpEnd \/ T_Cb \/ T_HBegin \/ T_HEnd \/ T_HAbandon \/ T_Eff \/ T_DefaultNew \/ T_TimerFire
          \/ T_Quiescent \/ T_Silent \/ T_Unavailable
 \* Fairness monitor (C13: "an explicit stop or handle drop terminates it even if the stream never ends").  The real
